@@ -33,5 +33,7 @@ PROPS = {
     'C12': dict(level='proof', A=['profile'], B=['caps'], proj='caps'),
     'C13': dict(level='proof', A=['profile'], B=['profile', 'fail'], proj='exact'),
     'C18': dict(level='proof', A=['profile_spawn'], B=['panic'], proj='abort'),
+    'C14': dict(level='proof', A=[], B=[], proj=None, P='split'),
+    'C15': dict(level='proof', A=['profile'], B=[], proj=None, P='total'),
     'C17': dict(level='proof', A=['profile', 'bigindex'], B=[], proj=None),
 }
